@@ -119,7 +119,7 @@ def collect_cases(ctx, vh):
     n_sv = 0
     for c in cases:
         if c["k"] == "mw":
-            rk = json.dumps({"pal": c["pal"], "meshes": c["meshes"]}, sort_keys=True)
+            rk = json.dumps({"pal": c["pal"], "arr": c.pop("arr")}, sort_keys=True)
             if rk in risky:
                 c["tag"] = "risky"
                 c["model"] = risky[rk]
